@@ -26,7 +26,8 @@ CODES = {1: "outcome differs from the model", 2: "the record's scheme/address/po
          4: "Scan took longer than the model's logical duration + slack"}
 OBS = {0: "report(info,secondary)", 1: "report(info)", 2: "report(NO info,secondary)", 3: "report(NO info)", 4: "error",
        11: "HANG", 96: "nil-result-without-error", 97: "result-and-error", 98: "harness-error"}
-BODY = {"empty_object": "BObject", "empty_object_ws": "BObject", "object": "BObject", "object_trailing": "BObjectTrailing", "object_ill_typed": "BObjectIllTyped",
+BODY = {"empty_object": "BObject", "empty_object_ws": "BObject", "object_version_number": "BObject",
+        "object_version_nested": "BObject", "object_unrelated": "BObject", "object_secured": "BObject", "object": "BObject", "object_trailing": "BObjectTrailing", "object_ill_typed": "BObjectIllTyped",
         "huge_object": "BObject", "null": "BNull", "array": "BNonObject", "string": "BNonObject", "number": "BNonObject",
         "true": "BNonObject", "empty": "BEmpty", "truncated": "BTruncated", "truncated_conn": "BTruncated",
         "garbage": "BGarbage", "endless": "BEndless", "stall_mid": "BStall", "": "BEmpty"}
@@ -76,7 +77,8 @@ def objectish(kind, slot, r):
         return False
     ok = {"object", "object_trailing", "huge_object"}
     if kind == "elastic":
-        ok |= {"object_ill_typed", "empty_object", "empty_object_ws"}
+        ok |= {"object_ill_typed", "empty_object", "empty_object_ws", "object_version_number", "object_version_nested",
+               "object_unrelated", "object_secured"}
         return r["body"] in ok
     return r["body"] in ok and 200 <= r["status"] < 400
 
@@ -140,6 +142,10 @@ def spec_on_impl(o):
     if obs == 11:
         return "Scan did not return (%s)" % o["err"]
     kind = o["kind"]
+    if o.get("print_panic"):
+        # startScanEngine's result-logging goroutine has no recover: in reality this kills the whole scan process, the
+        # endpoint (which DID serve JSON info) is not reported and neither is any target after it
+        return "the record of this endpoint cannot be reported: %s -- panic: %s" % tuple(o["print_panic"].split(": ", 1))
     if obs < 4:
         if o["mode"] != "accept" or mismatch(o):
             return "an endpoint that cannot be talked to is reported"
@@ -279,6 +285,17 @@ def rerun(ctx, rows, tag, par=6):
     return ctx.read_jsonl(os.path.join(ctx.work, "%s.jsonl" % tag))
 
 
+BODY_TEXT = {"object_version_number": '{"version":5,"cluster_name":["a","b"]}',
+             "object_version_nested": '{"version":{"number":7},"cluster_name":null}', "object_unrelated": '{"ok":true}',
+             "object_ill_typed": '{"cluster_name":5,"version":"x"}', "empty_object": "{}", "empty_object_ws": " { \\n } \\n",
+             "object_secured": '{"error":{...security_exception...},"status":401}', "null": "null"}
+
+
+def verif_body(o):
+    r = o["slots"].get("info", {})
+    return BODY_TEXT.get(r.get("body", ""), r.get("body", ""))
+
+
 def report(ctx, o, why):
     key = finding_key(o)
     if len(ctx.findings) >= 8 or any(f["key"] == key for f in ctx.findings):
@@ -287,9 +304,11 @@ def report(ctx, o, why):
     path = ctx.write_replay("case%d" % o["id"], {
         "property": "C10", "what": why, "key": key,
         "input": dict({k: o[k] for k in ("id", "class", "kind", "scheme", "server_tls", "timeout", "cancel", "mode", "slots",
-                                         "ip")}, e2e=bool(o.get("e2e"))),
+                                         "ip")}, e2e=bool(o.get("e2e")), plain_cli=bool(o.get("plain_cli")),
+                      info_body=(verif_body(o))),
         "observed": {"outcome": OBS.get(o["obs"], o["obs"]), "err": o["err"], "dur_ms": o["dur_ms"], "reqs": o["reqs"],
-                     "rec": o["rec"], "port": o["port"]},
+                     "rec": o["rec"], "port": o["port"], "plain_output": o.get("plain", ""),
+                     "print_panic": o.get("print_panic", "")},
         "replay_cmd": "bin/check C10 --replay <this file>"})
     ctx.findings.append({"key": key, "what": why, "replay": path})
 
